@@ -196,6 +196,11 @@ func (handler *Handler) loadByteArray(source []byte) (net1 *dhcpSubnet, net2 *dh
 		}
 	}
 
+	// leases cannot be validated without both subnets; the caller resets the configuration
+	if net1 == nil || net2 == nil {
+		return nil, nil, nil, fmt.Errorf("missing subnet configuration")
+	}
+
 	tt := map[string]*Lease{}
 
 	// Careful: Yaml does not set private fields in unmarshaled structured.
